@@ -355,7 +355,9 @@ Definition step (st : fstate) (l : label) : outcome :=
          so `buffered_send_data == 0` is part of the test (fix cc4d669 of /repo) *)
       if o_closed o && queue_empty && (s_buf s =? 0) then (match vs with [] => Ok st0 outs | _ => Stuck 29 end)
       else
-      let r := if o_pending_open o then Ok st0 [] else clear_queue st0 sid in
+      (* a stream still waiting to be opened keeps only its HEADERS (not part of this model); everything queued behind them is
+         dropped like for any other stream (fix of /repo: pending-open reset) *)
+      let r := clear_queue st0 sid in
       add_outs outs (bind r (fun st1 o1 => add_outs o1 (reclaim_all st1 sid vs)))
     end
   | LHandleError sid vs =>
